@@ -48,7 +48,7 @@ def menu(doc, reduced=False):
 
 
 def bounds(tier, seed):
-    return {"docs": len(docs()), "len1": "full menu", "len2": "4 docs + 1 chosen by VERIF_SEED: full first op x reduced second op" if tier == "quick" else "full x full on 4 docs, full x reduced on the rest",
+    return {"docs": len(docs()), "len1": "full menu", "len2": "3 docs + 1 chosen by VERIF_SEED: full first op x reduced second op" if tier == "quick" else "full x full on 4 docs, full x reduced on the rest",
             "len3": "none" if tier == "quick" else "reduced menu on 4 docs"}
 
 
@@ -57,23 +57,86 @@ def plan(tier, seed):
     nd = len(docs())
     for i in range(nd):
         shards.append(("L1", i))
-        if tier == "thorough" or i < 4:
+        if tier == "thorough" or i < 3:
             for k in range(16):
                 shards.append(("L2", i, k, 16, tier == "thorough" and i < 4))
     if tier == "quick":
-        i = 4 + seed % (nd - 4)
+        i = 3 + seed % (nd - 3)
         for k in range(16):
             shards.append(("L2", i, k, 16, False))
     else:
         for i in range(4):
             for k in range(16):
                 shards.append(("L3", i, k, 16))
+    shards.append(("OPT",))
     return shards
+
+
+OPT_PATHS = ["/a%20b", "/a b", "/\\u0061", "/a", "/a%2Fb/0", "/%7E", "/x%20\\u0062"]
+OPT_DOC = {"a b": [1], "a": [2], "a%20b": [3], "\\u0061": [4], "a/b": [5], "a%2Fb": [6], "~": [7], "%7E": [8], "x b": [9],
+           "x%20b": [10], "x \\u0062": [11], "x%20\\u0062": [12]}
+
+
+def _opt_tokens(path, ue, ud):
+    """Reference decoding of a pointer text under the two decoder options (urllib.parse.unquote, then \\uXXXX)."""
+    import re
+    from urllib.parse import unquote
+
+    t = path
+    if ud:
+        t = unquote(t)
+    if ue:
+        t = re.sub(r"\\u([0-9a-fA-F]{4})", lambda m: chr(int(m.group(1), 16)), t)
+    return rptr.parse(t)
+
+
+def _options(acc):
+    """Routes must agree under every decoder-option combination, whatever was built before in this process."""
+    import itertools
+
+    from jsonpath import JSONPatch
+
+    combos = [(True, False), (True, True), (False, False), (False, True)]
+    for order in itertools.permutations(combos):
+        for path in OPT_PATHS:
+            for ue, ud in order:
+                toks = _opt_tokens(path, ue, ud)
+                want_text = rptr.encode(toks)
+                op = {"op": "add", "path": path + "/-", "value": 0}
+                try:
+                    exp = ("doc", rpatch.add(OPT_DOC, toks + ["-"], 0))
+                except rpatch.PatchError:
+                    exp = ("error",)
+                routes = [("dicts", lambda: JSONPatch([dict(op)], unicode_escape=ue, uri_decode=ud)),
+                          ("builder", lambda: JSONPatch(unicode_escape=ue, uri_decode=ud).add(op["path"], 0)),
+                          ("json", lambda: JSONPatch(json.dumps([op]), unicode_escape=ue, uri_decode=ud))]
+                for name, mk in routes:
+                    bad = None
+                    try:
+                        p = mk()
+                        d = p.asdicts()
+                        if d[0]["path"] != want_text + "/-":
+                            bad = ("option-route-text." + name, want_text + "/-", d[0]["path"])
+                        else:
+                            got = _apply(p, deep_copy(OPT_DOC))
+                            if not _same(exp, got):
+                                bad = ("option-route-effect." + name, list(exp), list(got))
+                    except Exception as e:  # noqa: BLE001
+                        bad = ("exception", "no exception", "%s: %s" % (type(e).__name__, e))
+                    acc.case("OPT", (order, path, ue, ud, name), outcome=want_text, nontrivial=exp[0] == "doc")
+                    acc.count("OPT.routes")
+                    if bad:
+                        acc.violation("OPT", bad[0], {"path": path, "unicode_escape": ue, "uri_decode": ud, "route": name,
+                                                      "order": [list(c) for c in order]}, expected=bad[1], observed=bad[2])
+                        return
 
 
 def run_shard(shard, acc):
     kind = shard[0]
     ds = docs()
+    if kind == "OPT":
+        _options(acc)
+        return
     if kind == "L1":
         doc = ds[shard[1]]
         for op in menu(doc):
@@ -243,20 +306,30 @@ def _run(sub, doc, ops, acc, record=True):
 
 
 def REQUIRE(tier):
-    req = {"container-value-then-later-op": 100}
+    req = {"container-value-then-later-op": 100, "OPT.routes": 100}
     for op in ("add", "addne", "addap", "remove", "replace", "move", "copy", "test"):
         req[op + ".doc"] = 5
     return req
 
 
 def check_case(sub, case, acc):
+    if sub == "OPT":
+        a = type(acc)()
+        _options(a)
+        acc.viol.extend(a.viol[:1])
+        return
     _run(sub, case["doc"], case["ops"], acc, record=False)
 
 
-shrink = c05.shrink
+def shrink(sub, case):
+    if sub == "OPT":
+        return iter(())
+    return c05.shrink(sub, case)
 
 
 def signature(sub, case, v):
+    if sub == "OPT":
+        return "C15.OPT.%s.ue=%s.ud=%s" % (v["kind"], case["unicode_escape"], case["uri_decode"])
     doc, ops = case["doc"], case["ops"]
     cur = doc
     parts = []
